@@ -131,10 +131,13 @@ func c19Check(data []byte, schedule string, seed uint64, deferred bool) (kind, m
 	var rerr error
 	bounded := true
 	how := "Read"
-	if seed%3 == 0 {
-		// read a few bytes, then hand the stream to io.Copy (which uses the stream's WriteTo when it has one)
+	if seed%3 == 0 || seed%7 == 1 {
+		// read a few bytes (or none at all), then hand the stream to io.Copy (which uses the stream's WriteTo when it has one)
 		how = "Read then io.Copy"
 		head := make([]byte, 1+int(seed>>8)%40)
+		if seed%7 == 1 {
+			how, head = "io.Copy alone", nil
+		}
 		n, herr := io.ReadFull(res.Stream, head)
 		out = append(out, head[:n]...)
 		if herr == nil {
@@ -150,6 +153,21 @@ func c19Check(data []byte, schedule string, seed uint64, deferred bool) (kind, m
 		}
 	} else {
 		out, rerr, bounded = src.ReadAllChunks(res.Stream, 4096, int64(len(data))+1<<16)
+	}
+	if (seed%5 == 0 || seed%7 == 1) && bounded && rerr == nil {
+		// the drained stream handed to Load again: it is an empty input now, whatever it was before
+		again := loadWith("autometa", res.Stream)
+		if again.Panic != nil {
+			return "panic", fmt.Sprintf("autometa.Load on an already drained stream panicked: %v", again.Panic), nt
+		}
+		if again.Err == nil || again.MD != nil {
+			return "should-fail/drained", fmt.Sprintf("autometa.Load on the stream of an earlier Load after it had been drained (by %s) returned md=%v err=%v; no loader succeeds on an empty input", how, again.MD != nil, again.Err), nt
+		}
+		if again.Stream != nil {
+			if rest, _, _ := src.ReadAllChunks(again.Stream, 512, 1<<16); len(rest) != 0 {
+				return "stream/drained", fmt.Sprintf("autometa.Load on an already drained stream returned a stream with %d bytes in it", len(rest)), nt
+			}
+		}
 	}
 	if !bounded || rerr != nil || !bytes.Equal(out, data) {
 		return "stream", fmt.Sprintf("autometa.Load's stream (drained by %s) does not replay the input: %d bytes that %s (input %d bytes), err %v", how, len(out), firstDiff(out, data), len(data), rerr), nt
@@ -317,6 +335,18 @@ func c19Inputs(seed int64, thorough bool) []c19Input {
 	}
 	for _, f := range bigFiles(seed) {
 		add(f.Name, f.Bytes)
+	}
+	// bytes in front of a complete file (line ends, blanks, NULs, fill bytes, a byte-order mark):
+	// auto-detection succeeds exactly when a specific loader does
+	for i, s := range seeds {
+		if s.Truth.Format == "" || len(s.Bytes) == 0 {
+			continue
+		}
+		for k, lead := range [][]byte{[]byte("\r\n"), []byte(" "), []byte("\t\n "), {0}, {0xFF, 0xFF}, []byte("\xef\xbb\xbf")} {
+			if (i+k)%2 == 0 {
+				add(fmt.Sprintf("%s+leader%x", s.Name, lead), append(append([]byte{}, lead...), s.Bytes...))
+			}
+		}
 	}
 	for _, f := range hostileSpecials() {
 		add(f.Name, f.Bytes)
